@@ -16,15 +16,15 @@ import (
 )
 
 type SVal struct {
-	V     *Val
-	T     types.Type
-	Const *big.Int // untyped integer constant
-	Pkg   *types.Package
-	Type  types.Type // the expression denotes a type (conversion target)
-	Spec  *SpecFunc
-	Ghost *GhostHeap
-	Nil   bool
-	Bin   string // builtin name
+	V      *Val
+	T      types.Type
+	Const  *big.Int // untyped integer constant
+	Pkg    *types.Package
+	Type   types.Type // the expression denotes a type (conversion target)
+	Spec   *SpecFunc
+	Ghost  *GhostHeap
+	Nil    bool
+	Bin    string     // builtin name
 	CellOf types.Type // the binding is a cell (variable captured by reference): reads dereference it
 }
 
@@ -134,6 +134,8 @@ func (e *SEnv) resolveType(s string) types.Type {
 	switch {
 	case strings.HasPrefix(s, "*"):
 		return types.NewPointer(e.resolveType(s[1:]))
+	case strings.HasPrefix(s, "chan "):
+		return types.NewChan(types.SendRecv, e.resolveType(s[5:]))
 	case strings.HasPrefix(s, "[]"):
 		return types.NewSlice(e.resolveType(s[2:]))
 	case strings.HasPrefix(s, "["):
@@ -405,7 +407,7 @@ func (e *SEnv) ident(x *SX) *SVal {
 		return &SVal{Ghost: gh}
 	}
 	switch x.Tok {
-	case "len", "cap", "old", "has", "seen", "elems", "mapof", "typeis", "str_eq_bytes", "allocated", "fresh", "tagof", "card", "bytes_eq", "ptr":
+	case "len", "cap", "old", "has", "seen", "received", "sent", "sentcount", "elems", "mapof", "typeis", "str_eq_bytes", "allocated", "fresh", "tagof", "card", "bytes_eq", "ptr":
 		return &SVal{Bin: x.Tok}
 	}
 	if e.pkg != nil {
@@ -623,6 +625,17 @@ func (e *SEnv) unify(a, b *SVal) (*SVal, *SVal) {
 		}
 		return a, e.coerceTo(b, a.T)
 	}
+	// comparing an interface value with a concrete one boxes the concrete side (as Go does)
+	if a.T != nil && b.T != nil {
+		_, ai := a.T.Underlying().(*types.Interface)
+		_, bi := b.T.Underlying().(*types.Interface)
+		if ai && !bi {
+			return a, e.convertTo(b, a.T)
+		}
+		if bi && !ai {
+			return e.convertTo(a, b.T), b
+		}
+	}
 	return a, b
 }
 
@@ -838,6 +851,17 @@ func (e *SEnv) callExpr(x *SX) *SVal {
 		}
 		n := e.child()
 		n.heap = e.old
+		if e.locals != nil {
+			// inside old(), a parameter name denotes its value on entry, not a later reassignment
+			outer := e.locals
+			vars := e.vars
+			n.locals = func(name string) *SVal {
+				if _, isParam := vars[name]; isParam {
+					return nil
+				}
+				return outer(name)
+			}
+		}
 		return n.tr(args[0])
 	}
 	if fn.Op == "id" && fn.Tok == "pre" {
@@ -1036,6 +1060,37 @@ func (e *SEnv) builtinSpec(name string, args []*SX, x *SX) *SVal {
 		k := e.coerceTo(e.tr(args[1]), mt.Key())
 		d, _, _ := g.mapArrNames(mt)
 		return boolVal(fmt.Sprintf("(and (not (= %s 0)) (select (select %s %s) %s))", m.V.T, g.heapArr(e.heap, d, g.heapSort[d]), m.V.T, k.V.T))
+	case "sent": // sent(ch, v): v was put on channel ch by a send of this function (or a callee under contract)
+		if len(args) != 2 {
+			e.fail("sent(ch, v)")
+		}
+		c := e.tr(args[0])
+		ct, ok := c.T.Underlying().(*types.Chan)
+		if !ok {
+			e.fail("sent() on %s", c.T)
+		}
+		v := e.coerceTo(e.tr(args[1]), ct.Elem())
+		rn, rs := g.sndName(ct.Elem())
+		return boolVal(fmt.Sprintf("(select (select %s %s) %s)", g.heapArr(e.heap, rn, rs), c.V.T, v.V.T))
+	case "sentcount": // sentcount(ch): number of sends on ch so far (ghost)
+		c := e.tr(args[0])
+		if _, ok := c.T.Underlying().(*types.Chan); !ok {
+			e.fail("sentcount() on %s", c.T)
+		}
+		cn, cs := g.sndCountName()
+		return &SVal{V: &Val{T: fmt.Sprintf("(select %s %s)", g.heapArr(e.heap, cn, cs), c.V.T)}, T: intT}
+	case "received": // received(ch, v): v was taken from channel ch by a receive of this function
+		if len(args) != 2 {
+			e.fail("received(ch, v)")
+		}
+		c := e.tr(args[0])
+		ct, ok := c.T.Underlying().(*types.Chan)
+		if !ok {
+			e.fail("received() on %s", c.T)
+		}
+		v := e.coerceTo(e.tr(args[1]), ct.Elem())
+		rn, rs := g.rcvName(ct.Elem())
+		return boolVal(fmt.Sprintf("(select (select %s %s) %s)", g.heapArr(e.heap, rn, rs), c.V.T, v.V.T))
 	case "seen": // seen(K, k): key k was already produced by the K-th map range of the function
 		kc := e.tr(args[0])
 		if kc.Const == nil {
